@@ -757,6 +757,134 @@ def trace_record(absr, obs, prefix):
             'matches': recs['matches'], 'outside': outside, 'badnames': badnames}
 
 
+# ------------------------------------------------------- requests in flight together
+def judge_round(ctx, reqs, decs, obs, prior, prefix, where):
+    """One round: the requests `reqs` (decisions `decs`) were released together.
+    Every answer must be the one its decision gives; afterwards the bucket
+    holds prior + the stored names, each stored object decodes to a report
+    that was sent for that name, nothing else was touched.  Returns the key
+    set after the round (None on a mismatch)."""
+    cls = '+'.join(sorted(set(devclass(r) for r in reqs)))
+    detail = {'where': where, 'requests': [{'method': r['method'], 'class': devclass(r), 'decision': d, 'body': body_preview(r)[:160]} for r, d in zip(reqs, decs)],
+              'observed': {k: v for k, v in obs.items() if k != 'listing'}, 'prior_bucket': sorted(map(str, prior))}
+    n = len(reqs)
+    if obs.get('hang'):
+        ctx.violation('C12:upload:concurrent:hang', detail, '%s: %d requests in flight together did not return within 60 s' % (where, n))
+        return None
+    ok = True
+    for i, (r, d) in enumerate(zip(reqs, decs)):
+        sc = status_class(obs['status'][i])
+        if obs['panics'][i]:
+            ctx.violation('C12:upload:concurrent:panic', detail, '%s: request %d of %d in flight together panicked: %s' % (where, i, n, obs['panics'][i]))
+            ok = False
+        elif sc == '5xx':
+            ctx.violation('C12:upload:concurrent:5xx:%s' % devclass(r), detail, '%s: %s request (%s), one of %d in flight together, answered %s; no input may produce a 5xx answer' % (
+                where, r['method'], devclass(r), n, obs['status'][i]))
+            ok = False
+        elif sc != ('2xx' if d == 'store' else '4xx'):
+            ctx.violation('C12:upload:concurrent:status:%s' % devclass(r), detail, '%s: %s request (%s, decision %s), one of %d in flight together, answered %s' % (
+                where, r['method'], devclass(r), d, n, obs['status'][i]))
+            ok = False
+    touched = obs['created'] + obs['changed'] + obs['removed']
+    outside = [p for p in touched if not p.startswith(prefix)]
+    if outside:
+        ctx.violation('C12:upload:concurrent:outside-bucket', detail, '%s: %d requests in flight together created or changed %s outside the upload bucket' % (where, n, outside))
+        ok = False
+    storing = {}
+    for i, (r, d) in enumerate(zip(reqs, decs)):
+        if d == 'store':
+            storing.setdefault(model_key(r), []).append(i)
+    want_after = set(prior) | set(storing)
+    keys_after, badnames = listing_keys(obs['listing'], prefix)
+    inside_touched, _ = listing_keys([p for p in obs['created'] + obs['changed'] if p.startswith(prefix)], prefix)
+    if badnames or keys_after != want_after or obs['removed']:
+        ctx.violation('C12:upload:concurrent:bucket', dict(detail, unexpected=sorted(map(str, keys_after - want_after)) + badnames, missing=sorted(map(str, want_after - keys_after))),
+                      '%s: after %d requests in flight together (%s) the bucket should hold %s; unexpected %s missing %s removed %s' % (
+                          where, n, cls, sorted(map(str, want_after)), sorted(map(str, keys_after - want_after)) + badnames, sorted(map(str, want_after - keys_after)), obs['removed']))
+        return None
+    if not inside_touched <= set(storing):
+        ctx.violation('C12:upload:concurrent:effect', detail, '%s: %d requests in flight together changed %s, only %s are named by accepted reports' % (
+            where, n, sorted(map(str, inside_touched - set(storing))), sorted(map(str, storing))))
+        ok = False
+    for key, idxs in storing.items():
+        good = False
+        for i in idxs:
+            mk, _ = listing_keys(obs['matches'][i], prefix)
+            good = good or key in mk
+        if not good:
+            ctx.violation('C12:upload:concurrent:roundtrip', detail, '%s: after %d identical uploads in flight together the object named by week %r and X %r does not decode to the report that was sent (sizes %s)' % (
+                where, len(idxs), key[0], key[1], obs.get('sizes')))
+            ok = False
+    return want_after if ok else None
+
+
+def concurrent(ctx, cfgjson, inits, henv):
+    r = ctx.tlc('ServerConcMC', cfg='ServerConcMC4.cfg' if ctx.thorough() else 'ServerConcMC.cfg', label='ServerConc', workers=8, timeout=3000)
+    if not r.ok:
+        raise Infra('ServerConc.tla violates its own property (%s %s):\n%s' % (r.error, r.error_name, r.out[-3000:]))
+    r = ctx.tlc('ServerConcMC', cfg='ServerConcSim.cfg', simulate={'num': ctx.pick(40, 300), 'file': True}, depth=ctx.pick(30, 40), label='ServerConcSim', count=False, timeout=3000)
+    if r.error:
+        raise Infra('ServerConc simulate: %s\n%s' % (r.error, r.out[-2000:]))
+    behs, meta = [], []
+    for fn in ctx.sim_files(r):
+        states = [st for (_a, _b, st) in tlaval.read_simulate(fn)]
+        if not states:
+            continue
+        rounds = [[(p, 'store')] for p in inits[states[0]['b0']]]
+        cur = []
+        for st in states[1:]:
+            if st['status'] == 'started':
+                cur.append(st['last'])
+            elif not st['inflight'] and cur:
+                rounds.append([(q, None) for q in cur])
+                cur = []
+        if cur:
+            rounds.append([(q, None) for q in cur])
+        behs.append({'id': len(behs), 'fresh': len(behs) % 2 == 1,
+                     'rounds': [{'steps': [concretize(q, i) for i, (q, _d) in enumerate(rd)]} for rd in rounds]})
+        meta.append(rounds)
+    # the same thing at a larger scale: many copies of one upload (a client that retries), alone and next to other traffic
+    prim = dict(inits['prepop'][0], tag=0)
+    other = dict(inits['prepop'][1])
+    bad = dict(prim, week=dict(prim['week'], m=2, d=30))
+    reps = ctx.pick(100, 500)
+    for grp, rp in (([prim] * 8, reps), ([dict(prim, tag=1)] * 6 + [other] * 4 + [bad] * 2, reps // 2), ([prim] * 2, reps)):
+        behs.append({'id': len(behs), 'fresh': True, 'rounds': [{'steps': [concretize(q, i) for i, q in enumerate(grp)], 'repeat': rp}]})
+        meta.append([[(q, None) for q in grp]])
+    recs, rc, out = ctx.run_harness(PKG, 'TestVerifC12Conc', inp={'config': cfgjson, 'behaviours': behs}, module_dir='godev', timeout=2400, env=henv)
+    summ = gu.summary_of(recs, out, 'C12 concurrent')
+    prefix = summ['upload_prefix']
+    by = {}
+    for x in recs:
+        if x.get('kind') == 'round':
+            by.setdefault((x['id'], x['round']), []).append(x)
+    nround, nok, nmulti = 0, 0, 0
+    for bid, rounds in enumerate(meta):
+        prior, good = set(), True
+        for ri, rd in enumerate(rounds):
+            reqs = [q for q, _d in rd]
+            decs = [d or ('store' if devclass(q) == 'valid' else 'reject') for q, d in rd]
+            for o in sorted(by.get((bid, ri), []), key=lambda o: o['rep']):
+                nround += 1
+                nmulti += len(reqs) > 1
+                after = judge_round(ctx, reqs, decs, o, prior, prefix, 'concurrent behaviour %d round %d repetition %d' % (bid, ri, o['rep']))
+                if after is None:
+                    good = False
+                    break
+                prior = after
+            if not good:
+                break
+        nok += good
+    if nmulti < 20:
+        raise Infra('concurrent walks are degenerate: %d rounds with more than one request' % nmulti)
+    ctx.cov['concurrent_rounds'] = nround
+    ctx.cov['concurrent_rounds_with_overlap'] = nmulti
+    ctx.cov['concurrent_requests'] = summ['requests']
+    ctx.cov['evaluations'] += summ['requests']
+    ctx.cov['traces_validated_against_impl'] += nok
+    ctx.sample({'kind': 'concurrent-round', 'requests': [[q['method'], devclass(q)] for q, _d in meta[0][-1]]})
+
+
 # --------------------------------------------------------------------- the check
 def service_name_steps():
     """requests used by C18 to observe the names the upload service builds"""
@@ -785,9 +913,12 @@ def run(ctx):
         '"named by week and X": the object is <week>/<T>.json where T parses to exactly the float64 X (the decimal formatting of X is not prescribed)',
         '"decodes to the same report": compared field by field after decoding both sides with an independent mirror of the documented report '
         'layout; null and empty lists/maps are the same',
-        'one request at a time; prior bucket states are those reachable through the endpoint itself',
+        'requests in flight together (ServerConc.tla): released at the same moment from separate goroutines into one handler chain; requests that '
+        'overlap and name the same object carry the same report (a retry) -- which bytes a collision of two DIFFERENT reports of one week and X '
+        'leaves behind is not specified (with the current os.Create-based writer it can be a mixture of both); everything else is sequential; '
+        'prior bucket states are those reachable through the endpoint itself',
     ]
-    gu.inject_files(ctx, 'godev/cmd/telemetrygodev', ['c12_verif_test.go'])
+    gu.inject_files(ctx, 'godev/cmd/telemetrygodev', ['c12_verif_test.go', 'c12_conc_verif_test.go'])
     henv = gu.fast_tmp_env(ctx)
 
     # ---- 1. the specification: state machine, exhaustively ------------------
@@ -938,6 +1069,9 @@ def run(ctx):
     if meta:
         ctx.sample({'kind': 'history', 'initial': meta[0][2][0]['b0'],
                     'requests': [[q['method'], devclass(q), d] for (q, d) in meta[0][1][:10]]})
+
+    # ---- 3b. requests in flight together (ServerConc.tla) ----------------------
+    concurrent(ctx, cfgjson, inits, henv)
 
     # ---- 4. code -> model: random requests validated by TLC -------------------
     g = Gen(ctx.seed * 1000003 + 12, mcfg)
